@@ -446,11 +446,19 @@ func (c *Conn) doHandshake() error {
 			c.maxStreams = c.serverS.MaxConcurrentStreams()
 			c.maxFrameSize = c.serverS.MaxFrameSize()
 
-			if st.HeaderTableSize() <= defaultHeaderTableSize {
-				c.enc.SetMaxTableSize(st.HeaderTableSize())
-				c.encTableSize = st.HeaderTableSize()
-				c.encTableSizeSeen = st.HeaderTableSize()
+			// A larger table than the default is not taken up, but what the
+			// encoder works with has to be recorded either way: writeRequest
+			// only resizes it when the size it is handed differs from the one
+			// recorded here, and with nothing recorded a later
+			// SETTINGS_HEADER_TABLE_SIZE of 0 looked like no change at all.
+			tableSize := st.HeaderTableSize()
+			if tableSize > defaultHeaderTableSize {
+				tableSize = defaultHeaderTableSize
 			}
+
+			c.enc.SetMaxTableSize(tableSize)
+			c.encTableSize = tableSize
+			c.encTableSizeSeen = tableSize
 
 			// reply back
 			fr := AcquireFrameHeader()
